@@ -40,7 +40,7 @@ var lcInvalidEdges = []uint16{0x0100, 0x0fff, 0x1100, 0x1fff, 0x2100, 0x2fff, 0x
 const ean13 = "1234567890123"
 const ean13p5 = "1234567890123-12345"
 
-var textPool = []string{"", "a", "PSA", "1.2.3", "BL", "héllo", "日本", "a\"b\\c", "line\nbreak", "\x00", "tab\there", "SHA256", "sha-256", "M1"}
+var textPool = []string{"", "a", "PSA", "1.2.3", "BL", "héllo", "日本", "a\"b\\c", "line\nbreak", "\x00", "tab\there", "SHA256", "sha-256", "M1", "https://x.example/v?a=1&b=<2>", "\u2028"}
 var badUTF8 = []string{"\xff", "a\xc3", "\xed\xa0\x80", "ok\xfe"}
 
 func validComp(r *Rng) CompDesc {
